@@ -8,8 +8,10 @@ package main
 import (
 	"bytes"
 	"crypto/ed25519"
+	gorsa "crypto/rsa"
 	"fmt"
 	"io"
+	"math/big"
 	"os"
 	"os/exec"
 	"strings"
@@ -46,7 +48,14 @@ func sharedValues() []shared {
 	if err != nil {
 		panic(err)
 	}
-	return []shared{{"x25519", x.Recipient(), x}, {"scrypt", sr, si}, {"ssh-ed25519", ed.Recipient(), ed}, {"ssh-rsa", rsa.Recipient(), rsa}}
+	// the same RSA key assembled from its components only (no precomputed CRT values): a legal key value
+	k0 := keys.RSA(0).RSA
+	raw := &gorsa.PrivateKey{PublicKey: gorsa.PublicKey{N: new(big.Int).Set(k0.N), E: k0.E}, D: new(big.Int).Set(k0.D), Primes: []*big.Int{new(big.Int).Set(k0.Primes[0]), new(big.Int).Set(k0.Primes[1])}}
+	rsaRaw, err := agessh.NewRSAIdentity(raw)
+	if err != nil {
+		panic(err)
+	}
+	return []shared{{"x25519", x.Recipient(), x}, {"scrypt", sr, si}, {"ssh-ed25519", ed.Recipient(), ed}, {"ssh-rsa", rsa.Recipient(), rsa}, {"ssh-rsa(key from components)", rsaRaw.Recipient(), rsaRaw}}
 }
 
 func child(goroutines, rounds int) {
@@ -86,6 +95,7 @@ func child(goroutines, rounds int) {
 							errs[g] = "close: " + err.Error()
 							return
 						}
+						w.Close() // the `defer w.Close()` next to a checked Close
 						rd, err := age.Decrypt(&buf, sh.id)
 						if err != nil {
 							errs[g] = "decrypt of own file: " + err.Error()
@@ -135,7 +145,7 @@ func main() {
 		if c.Thorough() {
 			configs = append(configs, [2]int{3, 20}, [2]int{8, 20}, [2]int{32, 8}, [2]int{64, 4})
 		}
-		c.Bound("free-running goroutines (fork-join, no synchronisation between operations) sharing one recipient and one identity value per key type {x25519, scrypt, ssh-ed25519, ssh-rsa}: %v (goroutines, rounds) of Encrypt+Decrypt round trips and Decrypt of pre-made files of 3 sizes, built with -race", configs)
+		c.Bound("free-running goroutines (fork-join, no synchronisation between operations) sharing one recipient and one identity value per key type {x25519, scrypt, ssh-ed25519, ssh-rsa, ssh-rsa with a key assembled from its components}: %v (goroutines, rounds) of Encrypt+Decrypt round trips and Decrypt of pre-made files of 3 sizes, built with -race", configs)
 		for ci, cfg := range configs {
 			if !c.MineKey(ci) {
 				continue
